@@ -146,6 +146,10 @@ def struct_labels(l0, l1, l2, opt_b, opt_c):
     for valid, value in out:
         if "a" not in value or not isinstance(value["a"], Tok) or value["a"].i != 0:
             return False
+        if "b" in value and not (isinstance(value["b"], Tok) and value["b"].i == 1):
+            return False
+        if "c" in value and not (isinstance(value["c"], Tok) and value["c"].i == 2):
+            return False
         if "b" not in value:
             saw_without_b = True
             if not opt_b:
@@ -159,16 +163,40 @@ def struct_labels(l0, l1, l2, opt_b, opt_c):
     return _labels_ok(out, labels)
 
 
-def literal_labels(l0, l1):
-    labels = [l0, l1]
-    lit = model.LiteralType(kind="literal", value={"properties": [{"name": "x", "type": {"kind": "base", "name": "string"}}, {"name": "y", "type": {"kind": "base", "name": "integer"}}]})
+def literal_labels(l0, l1, l2, opt0, opt1, opt2):
+    """literal with three members, any of them optional: every emitted member carries the value generated for ITS type,
+    required members are present, label = conjunction of the labels of the members present"""
+    labels = [l0, l1, l2]
+    names = ["x", "y", "z"]
+    lit = model.LiteralType(
+        kind="literal",
+        value={
+            "properties": [
+                {"name": "x", "type": {"kind": "base", "name": "string"}, "optional": True if opt0 else False},
+                {"name": "y", "type": {"kind": "base", "name": "integer"}, "optional": True if opt1 else False},
+                {"name": "z", "type": {"kind": "base", "name": "boolean"}, "optional": True if opt2 else False},
+            ]
+        },
+    )
 
     def fake(t, s, visited):
-        i = {"string": 0, "integer": 1}[t.name]
+        i = {"string": 0, "integer": 1, "boolean": 2}[t.name]
         return iter([(labels[i], Tok(i))])
 
     out = _with_stub(fake, lambda: list(tg.generate_for_literal(lit, None, [])))
-    return _labels_ok(out, labels) and len(out) == 1 and set(out[0][1]) == {"x", "y"}
+    if not out:
+        return False
+    opts = [opt0, opt1, opt2]
+    for valid, value in out:
+        if set(value) - set(names):
+            return False
+        for i, n in enumerate(names):
+            if n in value:
+                if not isinstance(value[n], Tok) or value[n].i != i:
+                    return False
+            elif not opts[i]:
+                return False
+    return _labels_ok(out, labels)
 
 
 def and_labels(l0, l1):
